@@ -22,10 +22,11 @@ ASSUMPTIONS = [
     "E[v] must return the first name in insertion order whose value == v, '' if none (property statement); re-adding a removed name appends it at the end, as in a dict",
     "constructing from an empty mapping: Enum({}) is accepted (OpCode relies on it); Enum() with neither dict nor keywords is refused by design and not generated",
 ]
-REQUIRED_PROBES = ["shared_source_dict", "source_dict_mutated", "opcode_serviceaction_enum", "add_ok", "remove_ok", "add_existing_refused", "remove_missing_refused", "duplicate_values", "multi_enum", "library_helper_read", "library_attach"]
+REQUIRED_PROBES = ["shared_source_dict", "source_dict_mutated", "opcode_serviceaction_enum", "add_ok", "remove_ok", "add_existing_refused", "remove_missing_refused", "duplicate_values", "multi_enum", "library_helper_read", "library_attach", "source_mutated_before_first_access"]
 
 NAMES = ["A", "B", "C", "READ_10", "x", "y1", "Zz", "value", "name_", "k9", "5.25", "CD-I", "CD-ROM XA", "Less than 1.8", "a b", "é",
-         "_RESERVED", "_x", "name", "args", "kwargs", "key", "bases", "dict"]      # single leading underscore; names that are parameters of the constructor machinery
+         "_RESERVED", "_x", "name", "args", "kwargs", "key", "bases", "dict",
+         "items", "values", "get", "pop", "update", "copy", "clear", "index", "count"]      # single leading underscore; names that are parameters of the constructor machinery
 RESERVED = {"keys", "add", "remove", "mro", "__getitem__"}
 
 
@@ -37,7 +38,7 @@ def setup(repo):
 def gen_value(rng):
     r = rng.random()
     if r < 0.5:
-        return rng.choice([0, 1, 2, 3, 0x10, 0x12, 0xFF, -1])
+        return rng.choice([0, 1, 2, 3, 0x10, 0x12, 0xFF, -1, 4096, 0x1234, 70000, 4096])
     if r < 0.62:
         return rng.choice(["", "a", "READ", "x y", "A", "B", "x", "READ_10", "value"])     # some values spell other members' names
     if r < 0.7:
@@ -50,7 +51,9 @@ def gen_value(rng):
         return {"$dict": {"opcode": [255, rng.randrange(3)]}}
     if r < 0.95:
         return {"$opcode": [rng.choice(["INQUIRY", "X"]), rng.choice([0x12, 0x28]), {"SA": rng.randrange(3)}]}
-    return rng.choice([True, False, 1.5])
+    if r < 0.975:
+        return rng.choice([True, False, 1.5])
+    return {"$method": rng.randrange(3)}       # a bound method as value (a name -> handler table)
 
 
 def generate(rng, idx, tier):
@@ -61,7 +64,8 @@ def generate(rng, idx, tier):
         e = rng.randrange(4)
         if r < 0.1:
             ops.append({"op": "new", "form": rng.choice(["dict", "kw", "opcode", "opcode"]),
-                        "items": [[rng.choice(NAMES), gen_value(rng)] for _ in range(rng.choice([0, 0, 1, 3, 5]))]})
+                        "items": [[rng.choice(NAMES), gen_value(rng)] for _ in range(rng.choice([0, 0, 1, 3, 5]))],
+                        "mutate_before_access": rng.random() < 0.3})
             if rng.random() < 0.35:
                 ops[-1]["share_source_with"] = e      # built from the very same dict object as an earlier enumeration
         elif r < 0.14:
@@ -86,8 +90,26 @@ def generate(rng, idx, tier):
     return {"property": ID, "config": {}, "ops": ops}
 
 
+class Handlers:
+    """an application object whose bound methods serve as enumeration values"""
+
+    def __init__(self, n):
+        self.n = n
+
+    def __eq__(self, other):
+        return isinstance(other, Handlers) and other.n == self.n
+
+    def __hash__(self):
+        return hash(self.n)
+
+    def load(self):
+        return self.n
+
+
 def real(v):
     from pyscsi.pyscsi.scsi_opcode import OpCode
+    if isinstance(v, dict) and "$method" in v:
+        return Handlers(v["$method"]).load
     if isinstance(v, dict):
         if "$bytes" in v:
             return bytes.fromhex(v["$bytes"])
@@ -203,7 +225,16 @@ def execute(prog):
                 if form == "opcode":
                     # the service-action enumeration an OpCode object builds from a mapping (possibly empty)
                     from pyscsi.pyscsi.scsi_opcode import OpCode
+                    given = dict(d)
                     oc = OpCode("OP_%d" % i, 0x5E, d)
+                    if op.get("mutate_before_access") and not ("share_source_with" in op and sources):
+                        # the caller goes on using its dict right after building the OpCode; the enumeration is what was supplied
+                        d["LATER"] = 99
+                        for k_ in list(d)[:1]:
+                            if k_ != "LATER":
+                                del d[k_]
+                        WORLD.probe("source_mutated_before_first_access")
+                        d = given
                     oc.serviceaction
                     getE = (lambda oc=oc: oc.serviceaction)      # applications reach it through the attribute every time
                     WORLD.probe("opcode_serviceaction_enum")
@@ -287,6 +318,10 @@ def execute(prog):
                     viol("C18.getattr", "%s-instead-of-%s" % (res, want), "getattr(%r) -> %s" % (key, want), res)
             elif name == "lookup":
                 v = real(op["value"])
+                if isinstance(v, int) and not isinstance(v, bool):
+                    v = int(str(v))          # an equal value computed at run time, not the stored object
+                elif isinstance(v, str):
+                    v = "".join(list(v))
                 want = next((k for k, x in M.items() if x is v or eq(x, v)), "")
                 try:
                     got = E[v]
